@@ -383,6 +383,8 @@ def render_stmt(s, rng):
     if k == "push": return f"push{s[1]} " + render_expr(s[2], rng)
     if k == "apush": return "%push(" + render_expr(s[1], rng) + ")"
     if k == "label": return s[1] + ":"
+    if k == "raw": return f'%include_hex("blob_{len(s[1])}_{s[1][:2].hex()}.hex")'
+
     if k == "minv": return "%" + s[1] + "(" + ", ".join(render_expr(a, rng) for a in s[2]) + ")"
     if k == "edef": return f"%def {s[1]}({', '.join(s[2])})\n{render_expr(s[3], rng)}\n%end"
     if k == "mdef":
@@ -406,7 +408,7 @@ def render(stmts, rng=None):
     text = ""
     for i, line in enumerate(out):
         text += line
-        single = "\n" not in line and not line.rstrip().endswith(":") and "%" not in line
+        single = "\n" not in line and not line.rstrip().endswith(":") and "%" not in line and "#" not in line
         nxt_single = i + 1 < len(out) and "\n" not in out[i + 1] and not out[i + 1].rstrip().endswith(":") and "%" not in out[i + 1] and "#" not in line
         r = rng.random()
         if single and nxt_single and r < 0.1 and "#" not in line:
